@@ -73,7 +73,11 @@ func main() {
 			// second configuration: 32-bit build constraints (covers build-tagged files)
 			runThoroughExtras(r, rf, *repo)
 		}
-		code := r.Finish(*outDir, time.Since(t1).Seconds()+time.Since(t0).Seconds()*0, !*noEv)
+		wall := time.Since(t1).Seconds()
+		if len(props) == 1 {
+			wall = time.Since(t0).Seconds() // includes loading, type-checking and SSA construction
+		}
+		code := r.Finish(*outDir, wall, !*noEv)
 		if code > exit {
 			exit = code
 		}
